@@ -102,6 +102,10 @@ class EvolvableBERT(EvolvableModule):
             else:
                 self.wpe = PositionalEncoding(self.d_model, self.decoder_layers[0])
 
+        # Initialise the parameters registered so far. NOTE: this used to happen inside
+        # build_networks(), i.e. also on every rebuild after a mutation, where it wiped the
+        # learned weights of the live network before they were carried over
+        self._reset_parameters()
         self.encoder, self.decoder = self.build_networks()
         self.encoder_keys = list(self.encoder.keys())
         self.decoder_keys = list(self.decoder.keys())
@@ -162,8 +166,6 @@ class EvolvableBERT(EvolvableModule):
                     self.d_model, eps=self.layer_norm_eps, device=self.device
                 )
             )
-
-        self._reset_parameters()
 
         return nn.ModuleDict(encoder_dict), nn.ModuleDict(decoder_dict)
 
